@@ -88,6 +88,28 @@ CHECKS.update({
   note=SRV_NOTE + " Wire encodings are the library constructors' (optenc is an uninterpreted function of the constructed option); searchdomains only proves presence of the option.", technique="contract-based deductive verification: decision-table postconditions, frame over option maps", ref="DESIGN.md section 7 (C17)"),
 })
 
+PFX_NOTE = SRV_NOTE + (" For the prefix plugin: recordKey's contract (the table key is a function of the client DUID) is TRUSTED; the Allocator interface contract used by the plugins has no precondition about the allocator's well-formedness "
+   "(object-invariant meta-argument: constructors establish it, methods preserve it, fields are unexported - each of those is verified in C04-C07); time.Now is unconstrained.")
+CHECKS.update({
+ "C08": dict(
+  text=("Deductive proof on the real prefix.(*Handler).Handle (six nested loops, each with an inductive invariant): no panic and no exit with the plugin mutex held for any request and any lease table (safety and lock obligations); "
+        "every IA_PD of the request is answered by exactly one IA_PD option with the same IAID (the response gains one option 25 per request IA_PD unless the handler stops with nil); the handler's state invariant is established by setupPrefix "
+        "(receiver-invariant obligation) and preserved. That delegated blocks are in the pool, aligned, correctly sized and disjoint is the allocator's contract (C04/C05), which setupPrefix is proved to call with a well-formed IPv6 pool. "
+        "Lifetimes (positive, preferred <= valid <= 1h) are NOT proved (time arithmetic is uninterpreted)."),
+  note=PFX_NOTE, technique="contract-based deductive verification: loop invariants, safety/lock obligations, structural postcondition over ghost option counts", ref="DESIGN.md section 7 (C08, C09)"),
+ "C09": dict(
+  text=("Deductive proof on prefix.(*Handler).Handle of (a) the loop invariant `the list that will be recorded for the client grows by exactly one entry per successful allocation made while answering this IA_PD` (every delegated prefix is remembered, "
+        "however many the reply delegates), and (b) the assertion that a hint carrying no address is handled as an empty hint (it reaches the branch that hands the client its existing leases, instead of being compared with :: and sent on to a fresh allocation). "
+        "The full statement `a renewal/repeat returns P with a lifetime not shorter than what remained` is NOT proved: it needs invariants over the two local bitsets and time arithmetic (DESIGN.md section 8)."),
+  note=PFX_NOTE, technique="contract-based deductive verification: loop invariant over a ghost allocation counter, keyed assertion", ref="DESIGN.md section 7 (C08, C09)"),
+ "C19": dict(
+  text=("Deductive proof, for dns, mtu, netmask, router, searchdomains, staticroute, lease_time, ipv6only, autoconfigure, nbp, sleep, server_id and prefix, that (1) every setup function is panic-free for every argument vector (safety obligations: argument indexing, nil results of parsers) "
+        "and (2) a successful setup establishes the plugin invariants (post#plugin-invariant obligations; e.g. server_id: a 4-byte address; nbp: options carry their codes and serialise; staticroute: every appended route is IPv4 with a 32-bit mask; prefix: a well-formed 16-byte IPv6 pool and a handler whose state invariant holds), "
+        "under which (3) every handler obligation - safety, and the serialisability precondition of every option insertion (Options.Update calls Value.ToBytes) - is discharged; (4) a scan shows the configuration globals are written only by their setup functions. "
+        "`The reply parses back to the same options` is the codec's FromBytes/ToBytes round trip: assumed. range and file are covered by C02/C10 only as far as claimed there."),
+  note=SRV_NOTE + " The step from `every appended route is IPv4` to `every configured route is IPv4` (staticroute) is not machine-checked. Inductive plugin invariants are assumed to hold for zero-valued globals.", technique="contract-based deductive verification: setup postconditions (plugin invariants) + handler preconditions + write-frame scan", ref="DESIGN.md section 7 (C19)"),
+})
+
 NOT_YET = {}
 
 def main():
